@@ -90,6 +90,13 @@ def gen_image(ch, galactic=False, small=False):
     # a negative angle (CRVAL1 = -10 instead of 350: valid FITS; the WCS library then returns negative longitudes)
     spec["crval"] = ((30.0, -20.0), (359.95, 10.0), (120.0, -75.0), (0.02, 45.0), (-10.0, 5.0))[ch.draw("crval", 5)]
     spec["proj"] = ("SIN", "SIN", "TAN", "ZEA", "ARC", "STG")[ch.draw("projection", 6)]
+    # header flavours of a valid image: CDELT or CD matrix, elliptical restoring beam with a position angle,
+    # float32/float64 pixels, a 2-D image or plane `cube_index` of a 3-D cube
+    spec["cd_matrix"] = bool(ch.chance("cd_matrix", 1, 4))
+    spec["beam_ratio"] = (1.0, 1.0, 1.0, 1.25)[ch.draw("beam_ratio", 4)]
+    spec["bpa"] = (0.0, 30.0, -60.0)[ch.draw("bpa", 3)] if spec["beam_ratio"] != 1.0 else 0.0
+    spec["float64"] = bool(ch.chance("float64", 1, 5))
+    spec["cube"] = bool(ch.chance("cube", 1, 8))
     spec["noise_seed"] = ch.draw("noise_seed", 1 << 20)
     spec["noise"] = 1.0 if not ch.chance("noiseless", 1, 8) else 0.02
     rows, cols = spec["rows"], spec["cols"]
@@ -161,6 +168,11 @@ def render(spec):
 def write_image(spec, path):
     fits = _state["fits"]
     img = render(spec)
+    if spec.get("float64"):
+        img = img.astype(np.float64)
+    if spec.get("cube"):
+        # plane 1 of a three-plane cube holds the image; the other planes hold something else
+        img = np.stack([img * 0.0 + 1000.0, img, -img])
     hdu = fits.PrimaryHDU(img)
     h = hdu.header
     pix = spec["pix_arcsec"] / 3600.0
@@ -171,9 +183,15 @@ def write_image(spec, path):
         h["CTYPE1"], h["CTYPE2"] = "RA---" + proj, "DEC--" + proj
     h["CRVAL1"], h["CRVAL2"] = spec["crval"]
     h["CRPIX1"], h["CRPIX2"] = spec["cols"] / 2.0 + 0.5, spec["rows"] / 2.0 + 0.5
-    h["CDELT1"], h["CDELT2"] = -pix, pix
-    h["BMAJ"] = h["BMIN"] = spec["beam_pix"] * pix
-    h["BPA"] = 0.0
+    if spec.get("cd_matrix"):
+        h["CD1_1"], h["CD1_2"], h["CD2_1"], h["CD2_2"] = -pix, 0.0, 0.0, pix
+    else:
+        h["CDELT1"], h["CDELT2"] = -pix, pix
+    h["BMAJ"] = spec["beam_pix"] * pix * spec.get("beam_ratio", 1.0)
+    h["BMIN"] = spec["beam_pix"] * pix
+    h["BPA"] = spec.get("bpa", 0.0)
+    if spec.get("cube"):
+        h["CTYPE3"], h["CRVAL3"], h["CRPIX3"], h["CDELT3"] = "FREQ", 1.0e9, 1.0, 1.0e6
     h["BUNIT"] = "Jy/beam"
     h["EQUINOX"] = 2000.0
     hdu.writeto(path, overwrite=True)
